@@ -8,7 +8,7 @@ namespace Verif.Model.Codec
 
 /-! ### bytes of strings, byte-wise orders -/
 
-def strBytes (s : String) : List UInt8 := s.toUTF8.toList
+def strBytes (s : String) : List UInt8 := s.toUTF8.data.toList
 
 /-- lexicographic `≤` on byte strings (`bytes.Compare(a, b) <= 0`, Go string `<=`) -/
 def bytesLe : List UInt8 → List UInt8 → Bool
